@@ -42,6 +42,8 @@ def correspondence(ctx):
     for j in jobs:
         tcorr.compare(ctx, j, 'C01', observables=('out', 'ld'))
     spline_boxes(ctx, gen)
+    # linear family, normalisation layers, permutations, squeeze, wrappers, UMNN: Jacobian check directly
+    oracles.direct_on_extras(ctx, 'C01', oracles.jacobian_search)
 
 
 def spline_boxes(ctx, gen):
